@@ -1,3 +1,4 @@
+#include <algorithm>
 #include <cstring>
 
 #include <asam_cmp/decoder.h>
@@ -103,8 +104,10 @@ Decoder::SegmentedPacket::SegmentedPacket(
     , curMessageType(messageType)
     , curSegment(sequenceCounter)
 {
-    payload.resize(size);
-    memcpy(payload.data(), data, size);
+    // Only the declared payload belongs to the segment, not the bytes that follow it in the frame
+    const auto segmentSize = std::min(size, sizeof(MessageHeader) + reinterpret_cast<const MessageHeader*>(data)->getPayloadLength());
+    payload.resize(segmentSize);
+    memcpy(payload.data(), data, segmentSize);
 }
 
 bool Decoder::SegmentedPacket::addSegment(
